@@ -8,6 +8,17 @@ import sys
 COQ = os.path.join(os.path.dirname(os.path.dirname(os.path.abspath(__file__))), "coq")
 
 SPECS = {
+    "C11": {
+        "title": "C11 - All BFS engines compute the same growth function.",
+        "doc": "Main BFS: C01. Interactive engine: ibfs_growth (any graph, any start list). Unthinned BFS-mode walk: walks_bfs_exhaustive.\n"
+               "    NumPy and bit-mask engines: tied by correspondence (models NumpyBfs.v, Bitmask.v); their theorems are added as they are proved.",
+        "imports": "Base Tensor Graph GraphProofs GraphImpl BfsStep Interactive InteractiveProofs Walks WalksProofs",
+        "thms": [
+            ("C11_ibfs_growth", "ibfs_growth", "the step-by-step interactive BFS reports exactly the sizes of the true layers, from any start list"),
+            ("C11_ibfs_layers", "ibfs_layers", "and its current layer is the true layer"),
+            ("C11_walks_bfs_exhaustive", "walks_bfs_exhaustive", "an unthinned BFS-mode random walk returns every vertex with its true distance"),
+        ],
+    },
     "C07": {
         "title": "C07 - Random walks only visit real vertices along real edges with honest step counts.",
         "doc": "For ALL values of the random draws (oracle arguments: generator choices, torch.randperm). reach [start] k t = t is the end of a walk of exactly k edges from start.\n"
